@@ -48,6 +48,9 @@ MERGE_TEMPLATES = [
 ]
 
 
+MT_CHARS = {"quick": [" ", ",", ";", "a", "A", "1", "(", ")"], "thorough": [" ", ",", ";", "a", "A", "1", "(", ")", ".", "v", "§", "\n", "é", "-", "[", "]", "&", "'"]}
+
+
 def setup(tier, seed):
     if tier != "replay":
         tokenizer("HS")
@@ -144,7 +147,7 @@ def shards(tier, seed):
     for tok in ("AC", "HS", "REF"):
         out += dd.seq_shards("plain-" + tok, "A3", len(A3), d[tok], tok)
     out += dd.seq_shards("merge-AC", "A3", len(A3), d["MERGE"], "AC", extra={"merge": True}, prefix_len=1)
-    out += dd.residue_shards("merge-templates", "mt", "AC", 16, {"edits": 1 if tier == "quick" else 2})
+    out += dd.residue_shards("merge-templates", "mt", "AC", 16, {"edits": 1, "chars": "quick" if tier == "quick" else "thorough"})
     return out
 
 
@@ -191,7 +194,7 @@ def run_shard(sh):
         return st
     if sh["kind"] == "mt":
         gen = itertools.chain.from_iterable(
-            dd.char_mutations(t, [" ", ",", ";", "a", "A", "1", "(", ")"], sh["edits"]) for t in MERGE_TEMPLATES
+            dd.char_mutations(t, MT_CHARS[sh.get("chars", "quick")], sh["edits"]) for t in MERGE_TEMPLATES
         )
         run_merge(st, sh["part"], dd.sliced(gen, sh["r"], sh["n"]), sh["tok"])
         return st
